@@ -27,6 +27,15 @@ package lib
 // the values STORED in the returned object (covert policy, phantom blocklist, families, registrant,
 // generation, probe log, announcement log) — the connection handler dials and matches on those values,
 // not on the message that was admitted first. The stored objects are also part of the correspondence.
+//
+// Delivery: messages reach the station through its REAL ingest worker (startIngestThread, fed through its
+// channel: startWorker / deliver), so the iff is evaluated on what the pipeline does with a message; most
+// cells of the big decision table call parseRegMessage + ingestRegistration directly (cheaper; `hand`).
+// The liveness verdict is a pair (boolean, error kind): the full product is scripted, and histories of
+// several clients on one loopback phantom run with the real caching tester of pkg/station/liveness
+// (runSeq real=true). The peer API's behaviour is a dimension (status codes, lost reply, slow,
+// unreachable); requests RECEIVED by the stand-in are counted per client registration. "One family
+// cannot be built, the other is fine" is a corpus and a generated dimension (c07Gens bySecret, overrides).
 
 import (
 	"bytes"
@@ -566,7 +575,20 @@ type c07World struct {
 	rms          map[string]*RegistrationManager
 	workers      map[*RegistrationManager]chan interface{} // the ingest worker of each manager is fed through this channel
 	base         int                                       // goroutines when idle
+	selMemo      map[c07SelKey]c07SelAnswer                // answers of the phantom selector (all managers read the same subnet file)
 	sharesMissed int                                       // expected share requests that did not come
+}
+
+type c07SelKey struct {
+	seed   string
+	gen    uint32
+	libver uint
+	v6     bool
+}
+
+type c07SelAnswer struct {
+	s  string
+	ok bool
 }
 
 // setStation scripts what the libraries around the station answer while the next message is ingested
@@ -848,16 +870,28 @@ func (w *c07World) wire(rm *RegistrationManager, st c07Station, c c07Cell, secre
 		w.t.Fatal(err)
 	}
 	sel := func(v6 bool) string {
-		p, err := rm.PhantomSelector.Select(keys.ConjureSeed, uint(c2s.GetDecoyListGeneration()), libver, v6)
-		if err != nil {
-			return "-"
+		// (the answer of the real selector for one seed / generation / version / family is asked once and kept: the second
+		// message of a cell mostly asks the same question, and selection is the most expensive call of the run)
+		key := c07SelKey{string(keys.ConjureSeed), c2s.GetDecoyListGeneration(), libver, v6}
+		if a, ok := w.selMemo[key]; ok {
+			selectorOK = selectorOK && a.ok
+			return a.s
 		}
-		// the selector hands out an address of the requested family (C14); the theorems and the
-		// expectations of this harness rely on it (assumption SelectorFam)
-		if (p.IP().To4() == nil) != v6 || p.IP().To16() == nil {
-			selectorOK = false
+		if len(w.selMemo) > 64 {
+			w.selMemo = map[c07SelKey]c07SelAnswer{}
 		}
-		return hex.EncodeToString(*p.IP()) + "/" + vlib.B(p.SupportRandomPort())
+		a := c07SelAnswer{s: "-", ok: true}
+		if p, err := rm.PhantomSelector.Select(keys.ConjureSeed, uint(c2s.GetDecoyListGeneration()), libver, v6); err == nil {
+			// the selector hands out an address of the requested family (C14); the theorems and the
+			// expectations of this harness rely on it (assumption SelectorFam)
+			if (p.IP().To4() == nil) != v6 || p.IP().To16() == nil {
+				a.ok = false
+			}
+			a.s = hex.EncodeToString(*p.IP()) + "/" + vlib.B(p.SupportRandomPort())
+		}
+		w.selMemo[key] = a
+		selectorOK = selectorOK && a.ok
+		return a.s
 	}
 	verdict := func(t Transport, a *anypb.Any) (ok, port string) {
 		ok, port = "0", "-"
@@ -1985,7 +2019,7 @@ func c07Setup(t *testing.T, out *vlib.Out) *c07World {
 		t.Fatal(err)
 	}
 	os.Setenv("PHANTOM_SUBNET_LOCATION", path)
-	w := &c07World{t: t, out: &c07Out{Out: out, perSig: map[string]int{}}, rec: &c07Recorder{}, rms: map[string]*RegistrationManager{}, workers: map[*RegistrationManager]chan interface{}{}}
+	w := &c07World{t: t, out: &c07Out{Out: out, perSig: map[string]int{}}, rec: &c07Recorder{}, rms: map[string]*RegistrationManager{}, workers: map[*RegistrationManager]chan interface{}{}, selMemo: map[c07SelKey]c07SelAnswer{}}
 	http.DefaultTransport = c07Peer{w: w}
 	http.DefaultClient.Transport = c07Peer{w: w}
 	// loopback phantoms for the runs with the real liveness tester: a listener that takes every connection and closes it, and
